@@ -139,15 +139,31 @@ func nearestVertex(verts []model3d.Coord3D, c model3d.Coord3D, tol float64) int 
 	return 0
 }
 
-func repairRun(id int, sc solidComplex, rng *rand.Rand) repairRec {
-	const eps = 0.01
-	rec := repairRec{ID: id, Kind: "repair", Site: "Repair:" + sc.name, F: sc.faces, Out: [][]int{}, Flipped: []int{}}
+// repairRun: every face gets its own copies of its vertices.  chain = false: jittered by less than
+// epsilon/4 per coordinate (one tight cluster per vertex); chain = true: three copies per vertex
+// in a row, 3/4 epsilon apart (neighbours closer than epsilon, the ends further apart: they fall
+// into three consecutive cells of the merge grid and are merged through the middle one).
+func repairRun(id int, sc solidComplex, rng *rand.Rand, chain bool) repairRec {
+	eps := 0.01
+	site := "Repair:"
+	if chain {
+		eps = 1.0 / 128
+		site = "Repair(chain):"
+	}
+	rec := repairRec{ID: id, Kind: "repair", Site: site + sc.name, F: sc.faces, Out: [][]int{}, Flipped: []int{}}
 	rec.Panic = protect(func() {
 		m := model3d.NewMesh()
+		occ := map[int]int{} // occurrences of each vertex so far: its copies are used in the order -1, 0, +1, -1, ...
 		for _, f := range sc.faces {
 			t := &model3d.Triangle{}
 			for k := 0; k < 3; k++ {
 				j := model3d.XYZ(rng.Float64()-0.5, rng.Float64()-0.5, rng.Float64()-0.5).Scale(eps / 2)
+				if chain {
+					var off [3]float64
+					off[(f[k]+id)%3] = float64(occ[f[k]]%3-1) * 0.75 * eps
+					occ[f[k]]++
+					j = model3d.NewCoord3DArray(off)
+				}
 				t[k] = sc.verts[f[k]-1].Add(j)
 			}
 			m.Add(t)
@@ -516,7 +532,11 @@ func init() {
 					if len(flipped) == 0 {
 						for rep := 0; rep < 5; rep++ {
 							id++
-							out.write(repairRun(id, sc, rng))
+							out.write(repairRun(id, sc, rng, false))
+						}
+						for rep := 0; rep < 6; rep++ {
+							id++
+							out.write(repairRun(id, sc, rng, true))
 						}
 					}
 				}
